@@ -854,9 +854,13 @@ def search(ctx, sc, only=None):
                     break
             else:
                 guarded(ctx, what + ' aliasing', lambda: search_alias_values(ctx, im, cls, attr))
+        if not only or only[1] in ('pipelines', 'connect_pipelines', 'accumulate', 'display_progress'):
+            guarded(ctx, c['name'] + ' pipeline configurations', lambda: search_pipeline_configs(ctx, im, cls))
         if not only or only[1] in ('__getitem__', 'add', 'observe', 'parent', 'add_observer', 'add_sight_line', 'add_foil_detector', '__init__') + MEMBER_LIST_ATTRS:
             guarded(ctx, c['name'] + ' type filter', lambda: search_type_filter(ctx, im, cls))
             guarded(ctx, c['name'] + ' two groups', lambda: search_two_groups(ctx, im, cls))
+            guarded(ctx, c['name'] + ' re-parented behind the back', lambda: search_reparent_behind_back(ctx, im, cls))
+            guarded(ctx, c['name'] + ' observe with look-alike members', lambda: search_observe_duplicates(ctx, im, cls))
             guarded(ctx, c['name'] + ' rejected operations', lambda: search_rejected_ops(ctx, im, cls))
             guarded(ctx, c['name'] + ' membership', lambda: search_membership(ctx, im, cls))
             guarded(ctx, c['name'] + ' retrieval histories', lambda: search_retrieval_histories(ctx, im, cls))
@@ -961,7 +965,7 @@ def _has(im, mattr):
         return False
 
 
-def search_attr(ctx, im, cls, attr, n):
+def search_attr(ctx, im, cls, attr, n, configure=None):
     U = im.U
     mattr = expected_member(attr)
     sig = 'C15:%s.%s:' % (im.name, attr)
@@ -969,6 +973,8 @@ def search_attr(ctx, im, cls, attr, n):
     g = cls()
     for o in members:
         im.add(g, o)
+    if configure is not None:
+        configure(g, members)
     rep = dict(cls=im.name, attr=attr, n=n)
     ctx.case(key=('S', im.name, attr, n))
 
@@ -1197,6 +1203,177 @@ def search_alias_values(ctx, im, cls, attr):
                     ctx.fail(sig + 'aliases-caller-list', '%s.targets = flat list V; V %s afterwards changed the pixels\' targets' % (im.name, how),
                              dict(cls=im.name, attr=attr, n=n, form='flat', mutation=how, clause='caller-mutation'))
                     return
+
+
+# ---------------------------------------------------------------------------------------------------------------------
+# round 5
+PIPELINE_CONFIGS = (('Power',), ('Radiance',), ('SpectralPower',), ('SpectralRadiance',), ('Radiance', 'SpectralPower'),
+                    ('Power', 'Power', 'SpectralRadiance'), ('SpectralRadiance', 'Radiance', 'Power'))
+
+
+def _pipeline_classes(cfg):
+    from raysect.optical.observer import PowerPipeline0D, RadiancePipeline0D, SpectralPowerPipeline0D, SpectralRadiancePipeline0D
+    m = dict(Power=PowerPipeline0D, Radiance=RadiancePipeline0D, SpectralPower=SpectralPowerPipeline0D, SpectralRadiance=SpectralRadiancePipeline0D)
+    return [m[c] for c in cfg]
+
+
+def configure_pipelines(im, g, members, cfg, how):
+    """give every member the pipeline configuration `cfg` through the group API; returns None or a complaint"""
+    classes = _pipeline_classes(cfg)
+    if how == 'setter':
+        g.pipelines = [[c() for c in classes] for _ in members]
+    elif im.spectro:
+        g.connect_pipelines([(c, 'p%d' % i, None) for i, c in enumerate(classes)])
+    else:
+        g.connect_pipelines(list(classes), [dict(name='p%d' % i) for i in range(len(classes))])
+    seen = set()
+    for o in members:
+        ps = list(o.pipelines)
+        if [type(p) for p in ps] != classes:
+            return 'member has pipelines %s, expected %s' % ([type(p).__name__ for p in ps], list(cfg))
+        if any(id(p) in seen for p in ps):
+            return 'two members share a pipeline object'
+        seen.update(id(p) for p in ps)
+    return None
+
+
+def search_pipeline_configs(ctx, im, cls):
+    """(a) every broadcast attribute, assigned and read with every pipeline configuration the group API can produce (mono,
+    spectral, mixed, several per member; through `pipelines =` and through `connect_pipelines`).  For the attributes that
+    live on the pipelines (`accumulate`, `display_progress` of the deprecated spectroscopic groups) the reference is the
+    pipeline objects themselves, not the member's own getter/setter (cherab/tools/observers/spectroscopy/base.py is code the
+    property depends on): after `group.attr = v` every pipeline of member i that has the attribute holds v_i, and the group
+    read lists, per member and pipeline, that value (None for pipelines without the attribute)."""
+    if im.c['family'] != 'observer0D' or 'pipelines' not in im.desc:
+        return
+    sigc = 'C15:%s.' % im.name
+    for cfg in PIPELINE_CONFIGS:
+        for how in ('setter', 'connect'):
+            n = 2
+            members = [make_member(im.member_kind, str(i)) for i in range(n)]
+            g = cls()
+            for o in members:
+                im.add(g, o)
+            ctx.case(key=('S', im.name, 'pipeline-config', cfg, how))
+            try:
+                bad = configure_pipelines(im, g, members, cfg, how)
+            except Exception as e:  # noqa
+                bad = 'raises ' + exc_kind(e)
+            if bad:
+                ctx.fail(sigc + ('connect_pipelines' if how == 'connect' else 'pipelines') + ':configuration',
+                         '%s: configuring %s through %s: %s' % (im.name, list(cfg), how, bad), dict(cls=im.name, attr='pipelines', config=list(cfg), how=how))
+                return
+            # attributes stored on the pipelines
+            for attr in ('accumulate', 'display_progress'):
+                d = im.desc.get(attr)
+                if not d or d['getter'].get('attr') != attr:
+                    continue
+                for form, values in (('scalar', [True, True]), ('scalar', [False, False]), ('list', [True, False]), ('tuple', [False, True])):
+                    v = values[0] if form == 'scalar' else (list(values) if form == 'list' else tuple(values))
+                    st = outcome(lambda: setattr(g, attr, v))
+                    rep = dict(cls=im.name, attr=attr, config=list(cfg), how=how, form=form, value=repr(v))
+                    if st != 'ok':
+                        ctx.fail(sigc + attr + ':pipeline-configuration', '%s with pipelines %s: %s = %r raises %s' % (im.name, list(cfg), attr, v, st), rep)
+                        return
+                    held = [[(getattr(p, attr) if hasattr(p, attr) else None) for p in o.pipelines] for o in members]
+                    want = [[(values[i] if hasattr(p, attr) else None) for p in o.pipelines] for i, o in enumerate(members)]
+                    try:
+                        read = [list(x) for x in getattr(g, attr)]
+                    except Exception as e:  # noqa
+                        read = exc_kind(e)
+                    if held != want or read != want:
+                        ctx.fail(sigc + attr + ':pipeline-configuration',
+                                 '%s, members with pipelines %s (via %s): after group.%s = %r the pipelines hold %s and the group reads %s; expected %s' % (
+                                     im.name, list(cfg), how, attr, v, held, read, want), rep)
+                        return
+            # every other broadcast attribute with this configuration (reference: a lone observer configured the same way)
+            try:
+                im.scratch.pipelines = [c() for c in _pipeline_classes(cfg)]
+            except Exception:  # noqa
+                continue
+            try:
+                for attr in im.bcast:
+                    if attr in ('pipelines', 'accumulate', 'display_progress') or im.desc[attr]['getter'].get('attr') != expected_member(attr):
+                        continue
+                    if not search_attr(ctx, im, cls, attr, n, configure=lambda g_, ms_: configure_pipelines(im, g_, ms_, cfg, how)):
+                        return
+            finally:
+                im.scratch.pipelines = im._scratch_pipes
+
+
+def search_reparent_behind_back(ctx, im, cls):
+    """(b) member-list assignment after members were re-parented behind the group's back (to None, to the world, borrowed by
+    another group): after `group.<members> = [...]` every listed observer has the group as scene-graph parent again and is
+    among its children - whatever its parent was before, and whether or not it already was a member."""
+    from raysect.optical import World
+    sig = 'C15:%s.' % im.name
+    for ml in im.mlist:
+        for layout in ('same', 'permuted', 'subset+new'):
+            world = World()
+            g = cls(parent=world)
+            borrower = cls(parent=world)
+            a, b, c, d = (make_member(im.member_kind, t) for t in 'abcd')
+            for o in (a, b, c, d):
+                im.add(g, o)
+            a.parent = None                      # detached
+            b.parent = world                     # moved to the world
+            im.add(borrower, c)                  # borrowed by a second group (d stays untouched)
+            fresh = make_member(im.member_kind, 'e')
+            new = {'same': [a, b, c, d], 'permuted': [c, a, d, b], 'subset+new': [b, fresh, c, a]}[layout]
+            ctx.case(key=('S', im.name, 'reparent-behind-back', ml, layout))
+            st = outcome(lambda: setattr(g, ml, list(new)))
+            if st != 'ok':
+                ctx.fail(sig + ml + ':stale-parent-after-reassignment', '%s.%s = %s members (some re-parented elsewhere before) raises %s' % (im.name, ml, layout, st),
+                         dict(cls=im.name, attr=ml, layout=layout, raised=st))
+                break
+            wrong = [k for k, o in zip('abcde', (a, b, c, d, fresh)) if any(o is x for x in new) and (o.parent is not g or o not in g.children)]
+            if wrong or not _same_objs(im.members(g), new):
+                ctx.fail(sig + ml + ':stale-parent-after-reassignment',
+                         '%s: a.parent = None; b.parent = world; other_group adopts c; then group.%s = [%s]: listed observers %s do not have the group as parent '
+                         '(parents: %s)' % (im.name, ml, layout, wrong, {k: ('group' if o.parent is g else 'None' if o.parent is None else type(o.parent).__name__)
+                                                                         for k, o in zip('abcde', (a, b, c, d, fresh)) if any(o is x for x in new)}),
+                         dict(cls=im.name, attr=ml, layout=layout, stale=wrong))
+                break
+
+
+def search_observe_duplicates(ctx, im, cls):
+    """(c) observe() with members that look alike: distinct observers sharing one name and all settings.  Every member is
+    observed exactly once (sample counters of accumulating pipelines); for the camera, which returns measurements, element
+    i of the returned list is member i's own measurement (an emitter makes the detectors' powers differ)."""
+    from raysect.core import translate
+    from raysect.optical import World, ConstantSF
+    from raysect.optical.material import UniformVolumeEmitter
+    from raysect.primitive import Sphere
+    sig = 'C15:%s.' % im.name
+    for n, names in ((2, ['dup', 'dup']), (3, ['dup', 'x', 'dup']), (4, ['dup'] * 4)):
+        world = World()
+        Sphere(2.0, transform=translate(0, 0, 5), material=UniformVolumeEmitter(ConstantSF(1.0)), parent=world)
+        g = cls(parent=world)
+        ms = [make_member(im.member_kind, str(i)) for i in range(n)]
+        for i, (o, nm) in enumerate(zip(ms, names)):
+            o.name = nm
+            if hasattr(o, 'x_width'):
+                o.x_width = 0.001 * (i + 1)          # distinguishable measurements
+            im.add(g, o)
+        for o in ms:
+            prep_observe(g, world, o)
+        before = [_samples(o) for o in ms]
+        ctx.case(key=('S', im.name, 'observe-duplicates', n))
+        try:
+            ret = g.observe()
+            st = 'ok'
+        except Exception as e:  # noqa
+            ret, st = None, ename(exc_kind(e))
+        delta = [_samples(o) - b for o, b in zip(ms, before)]
+        rep = dict(cls=im.name, attr='observe', names=names, n=n)
+        if st != 'ok' or delta != [3] * n:
+            ctx.fail(sig + 'observe:duplicate-names', '%s with members named %s: observe() %s, samples taken per member %s (3 = observed once)' % (im.name, names, st, delta), rep)
+            return
+        if ret is not None:
+            own = [o.pipelines[0].value.mean for o in ms]
+            if list(ret) != own:
+                ctx.fail(sig + 'observe:duplicate-names', '%s with members named %s: observe() returned %s, the members\' own measurements are %s' % (im.name, names, list(ret), own), rep)
+                return
 
 
 def search_two_groups(ctx, im, cls):
